@@ -43,3 +43,43 @@ claim(
     'constant folding / partial evaluation with guarded lists; who-may-'
     'instantiate and who-may-write queries; dominance for the enabled-test',
     'DESIGN.md §4 C14')
+
+claim(
+    'C12', 'other',
+    'Clause-level structural claim, decided statically on nodes.py: the '
+    'hand-written pickler and unpickler agree (tag set, struct formats, '
+    'header widths computed with struct.calcsize, cursor arithmetic as '
+    'linear forms, field order, payload length measured on the encoded '
+    'bytes, codec, all slots restored); every way an iteration of the '
+    'two-stack equality walk can end is justified by identity or by compared '
+    'leaf-ness and text/length, and no "equal" verdict comes from hashes; '
+    'hash and id slots have a single provenance and nodes are immutable '
+    'outside constructor/unpickler; ids are drawn from the process-shared '
+    'counter under its lock; dfs/bfs/count_nodes/count_exprs handle each '
+    'popped node exactly once and push children once in the required order. '
+    'Exit 0 means these obligations hold on every path of the current '
+    'source, not that the behavioural statement was tested on trees.',
+    'Partial: the behavioural statement over all pairs of trees and across '
+    'real processes is not decided. Trusted: CPython ast, the CFG/path '
+    'enumeration of /verif/sa, fork semantics of multiprocessing.Value.',
+    'writer/reader table agreement; per-path (CFG path enumeration with guard '
+    'facts) obligations; who-may-write on node slots',
+    'DESIGN.md §4 C12')
+
+claim(
+    'C13', 'other',
+    'Structural claim decided statically: (a) interprocedural def-use - every '
+    'expression list handed to TaskGenerator/Producer is, on all reaching '
+    'definitions through both reduce drivers and cli.ddsmt_main, the result '
+    'of nodes.reduplicate or fresh parser output; (b) inside reduplicate '
+    'every path that reuses an original object is dominated by the "id not '
+    'seen" test and records the id, every other path rebuilds from unchanged '
+    'text/children without _id=; (c) fresh ids are unique across processes '
+    '(shared counter under lock). These are exactly the conditions under '
+    'which an identity-keyed simplification hits one position.',
+    'Inputs updated inside one ddmin granularity round are outside the '
+    'statement ("round"). Trusted: CPython ast, reaching-definitions and path '
+    'enumeration of /verif/sa.',
+    'interprocedural reaching definitions (def-use closure, greatest '
+    'fixpoint) + per-path dominance of the membership test',
+    'DESIGN.md §4 C13')
